@@ -175,7 +175,7 @@ def run(ctx):
             path = os.path.join(tmp, 'm%d.%s' % (k, c['ext']))
             model_write(c['ext'], path, c['b0'], c['extra'], c['prefix'], c['zpad'])
             data = bytearray(open(path, 'rb').read())
-            kind = rng.choice(['magic', 'magic', 'trunc', 'flip', 'count', 'size', 'ext'])
+            kind = rng.choice(['magic', 'magic', 'trunc', 'flip', 'count', 'size', 'ext', 'ext', 'ext'])
             newpath = path
             if kind == 'magic':
                 data[rng.randrange(4)] ^= 1 << rng.randrange(8)
@@ -184,7 +184,7 @@ def run(ctx):
             elif kind == 'flip': data[rng.randrange(len(data))] ^= 1 << rng.randrange(8)
             elif kind == 'count': data[4:8] = struct.pack('<i', rng.choice([0, -1, 2, 7, 2 ** 31 - 1, -2 ** 31]))
             elif kind == 'size': data[8:12] = struct.pack('<i', rng.choice([0, -1, 5, 2 ** 31 - 1, -7]))
-            elif kind == 'ext': newpath = path.rsplit('.', 1)[0] + rng.choice(['.replay', '.wowsreplay.bak', '', '.WOWSREPLAY', '.zip'])
+            elif kind == 'ext': newpath = path.rsplit('.', 1)[0] + rng.choice(['.replay', '.wowsreplay.bak', '', '.WOWSREPLAY', '.zip', '.fake' + c['ext'], '.x' + c['ext'], '.not_a_' + c['ext'], '_' + c['ext']])
             open(newpath, 'wb').write(bytes(data))
             if newpath != path: os.unlink(path)
             try: got = lib_read(newpath)
@@ -263,6 +263,7 @@ def run(ctx):
                 if name == 'no-version': engine = {'marker': 'no-version-%d' % strict, 'nested': {'a': [1, 2, {'b': None}]}}
                 co = zlib.compressobj(6); z = co.compress(stream) + co.flush(); z += bytes((-len(z)) % 8)
                 model_write('wowsreplay', pth, json.dumps(engine).encode(), [json.dumps(e).encode() for e in extra], struct.pack('<II', len(stream), len(z)), z)
+                open(dmp, 'wb').write(b'STALE' * (len(stream) // 5 + 7))          # an older, longer dump is there already: it must be replaced, not overwritten in place
                 info = None
                 try: info = RP(pth, strict=strict, raw_data_output=dmp).get_info()
                 except Exception: pass
